@@ -1295,7 +1295,8 @@ def scripts_c02(tier, rng):
     out, stats = [], {}
     for i in range(n):
         g = gen.HistGen(rng.fork(), max_ops=30, small_cache=(i % 2 == 0), worker_steps=(i % 2 == 1),
-                        restarts=True, queries=("st", "read"), weights=dict(restart=14))
+                        restarts=True, queries=("st", "read"), weights=dict(restart=14),
+                        rejected=(i % 3 == 0))
         lines = []
         for l in g.script():
             if l == "drop":
@@ -1312,11 +1313,11 @@ def scripts_c02(tier, rng):
 
 
 PROPS.update({
-    "C04": dict(theorems=[], gen=scripts_c04, project=proj_events, oracle=oracle_c04,
+    "C04": dict(theorems=['c04_wf_invariant', 'c04_covered_step', 'c04_dying_step', 'c04_covered_rotate', 'c04_covered_flush', 'c04_ack_only_from_syncNew', 'c04_ack_means_synced', 'c04_negative_after_failed_sync', 'c04_step_cbs', 'c04_cbs_in_request_order', 'c04_cb_at_most_once', 'c04_exactly_once_no_fault_measure', 'c04_exactly_once_no_fault', 'c04_wf_reachable', 'c04_covered_sys'], gen=scripts_c04, project=proj_events, oracle=oracle_c04,
                 explanation="flush acknowledgement soundness", assumptions=OS_ASSUMPTIONS),
-    "C08": dict(theorems=[], gen=scripts_c08, project=proj_c08, oracle=oracle_c08,
+    "C08": dict(theorems=['c08_unlink_only_after_good_sync', 'c08_removal_starts_only_after_good_sync', 'c08_lastSyncFailed', 'c08_unlink_in_list_order', 'c08_postponed_in_request_order', 'c08_popObsolete_prefix'], gen=scripts_c08, project=proj_c08, oracle=oracle_c08,
                 explanation="chunk deletion", assumptions=OS_ASSUMPTIONS),
-    "C14": dict(theorems=[], gen=scripts_c14, project=proj_events, oracle=oracle_c14,
+    "C14": dict(theorems=['c14_worker_terminates_measure', 'c14_fuel_bound', 'c14_fuel_sufficient', 'c14_todoOK_reachable', 'c14_todoOK_invariant', 'c14_worker_terminates', 'c14_worker_terminates_any', 'c14_drop_state', 'c14_after_drop_nothing_moves', 'c14_drop_quiesces', 'c14_drop_none', 'c14_drop_quiesces_reachable', 'c14_drop_quiesces_system'], gen=scripts_c14, project=proj_events, oracle=oracle_c14,
                 explanation="drop quiesces", assumptions=OS_ASSUMPTIONS),
     "C07": dict(theorems=[], gen=scripts_c07, project=proj_c07, oracle=oracle_c07,
                 explanation="reads independent of cache/worker", assumptions=OS_ASSUMPTIONS),
